@@ -147,7 +147,7 @@ def _chains(ctx, items):
             for cls in ("local", "base"):
                 n += _chain_rounds(ctx, lab, ["f1"], cls, False, items, ["corpus", "chain", "labels:all"])
     want = 3 if ctx.tier != "thorough" else 6
-    for _ in range(ctx.n(2, 4)):
+    for _ in range(ctx.n(2, 3)):
         shallow = ctx.rng.random() < 0.5
         size = 4 if ctx.rng.random() < 0.3 else 3
         seen = {}
@@ -201,7 +201,7 @@ def run(ctx):
     n_problems += _chains(ctx, items)
     # ---- generated
     nbase = ctx.n(36, 20)
-    per_base = ctx.n(2, 40)
+    per_base = ctx.n(2, 30)
     for _ in range(nbase):
         base, notes = TC.gen_base(ctx.rng, "C04")
         if ctx.rng.random() < 0.3:
